@@ -109,17 +109,19 @@ fn gen11(ch: &mut Chooser, p: &P11) -> Case11 {
         // nested range element among the inner lines (never touching the wrapper lines)
         let nested = if m >= 3 { ch.choose(3) } else { 0 }; // 0 none, 1 ready, 2 pending
         let nested_at = if nested > 0 { 1 + ch.choose(m - 2) } else { usize::MAX }; // before body line index
+        // the nested element's tags indented relative to the block, or at the block's own column
+        let nind = if nested > 0 && ch.flag() { "" } else { "  " };
         let mut body_idx: Vec<usize> = vec![];
         for i in 0..m {
             if i == nested_at {
                 let to = if nested == 1 { TO_EXPIRED } else { TO_FUTURE };
-                lines.push(format!("{tind}  {}", open_tl(to, "")));
+                lines.push(format!("{tind}{nind}{}", open_tl(to, "")));
                 removed.push(nested == 1);
                 body_idx.push(lines.len() - 1);
-                lines.push(format!("{tind}  {}();", id()));
+                lines.push(format!("{tind}{nind}{}();", id()));
                 removed.push(nested == 1);
                 body_idx.push(lines.len() - 1);
-                lines.push(format!("{tind}  </tl>"));
+                lines.push(format!("{tind}{nind}</tl>"));
                 removed.push(nested == 1);
                 body_idx.push(lines.len() - 1);
                 nested_ready = nested == 1;
@@ -261,12 +263,20 @@ fn gen_blk(ch: &mut Chooser, p: &P12, unit: &str, t_units: usize, depth: usize, 
     let f_lo = t_units.saturating_sub(1);
     let f_units = f_lo + ch.choose(t_units + 2 - f_lo + 1);
     let mut inner = vec![];
-    let i0 = id(ctr);
-    inner.push(Inner::Line {
-        w: unit.repeat(f_units),
-        text: format!("{i0}();"),
-        id: i0,
-    });
+    // the first inner line is a code line, or (top-level blocks only) a whitespace-only / empty
+    // line: its indentation still defines the shift
+    if depth == 1 && ch.choose(3) == 2 {
+        inner.push(Inner::Ws {
+            w: unit.repeat(f_units),
+        });
+    } else {
+        let i0 = id(ctr);
+        inner.push(Inner::Line {
+            w: unit.repeat(f_units),
+            text: format!("{i0}();"),
+            id: i0,
+        });
+    }
     let further = 1 + ch.choose(p.max_further[(depth - 1).min(p.max_further.len() - 1)]);
     let mut used_special = false;
     for _ in 0..further {
@@ -398,7 +408,7 @@ fn surv_inside_out(b: &Blk) -> Vec<SLine> {
     }
     let t = b.t.chars().count();
     let f = match &b.inner[0] {
-        Inner::Line { w, .. } => w.chars().count(),
+        Inner::Line { w, .. } | Inner::Ws { w } => w.chars().count(),
         _ => unreachable!(),
     };
     let s = f.saturating_sub(t);
@@ -418,7 +428,7 @@ fn surv_outside_in(b: &Blk, pre: &[(usize, usize)]) -> Vec<SLine> {
     };
     let t_now = apply(&b.t, pre).chars().count();
     let f_now = match &b.inner[0] {
-        Inner::Line { w, .. } => apply(w, pre).chars().count(),
+        Inner::Line { w, .. } | Inner::Ws { w } => apply(w, pre).chars().count(),
         _ => unreachable!(),
     };
     let mut shifts = pre.to_vec();
@@ -467,12 +477,21 @@ fn gen12(ch: &mut Chooser, p: &P12) -> Case12 {
     let unit = p.units[ch.choose(p.units.len())];
     let t_units = ch.choose(3);
     // 0..2 code lines before the block, (3) an earlier removal: code, a ready block, code, or
-    // (4) a ready block directly above the unwrap-block (no line between)
-    let before = ch.choose(5);
+    // (4) a ready block directly above the unwrap-block (no line between), (5) a line with two
+    // ready inline elements that touch each other (zero bytes between them)
+    let before = ch.choose(6);
     let mut ctr = 0usize;
     let blk = gen_blk(ch, p, unit, t_units, 1, &mut ctr);
     let mut lines: Vec<String> = vec![];
-    if before == 3 || before == 4 {
+    if before == 5 {
+        lines.push(format!(
+            "P0(); {}x{}{}y{} P1();",
+            open_tl(TO_EXPIRED, ""),
+            "</tl>",
+            open_tl(TO_EXPIRED, ""),
+            "</tl>"
+        ));
+    } else if before == 3 || before == 4 {
         lines.push("P0();".into());
         lines.push(open_tl(TO_EXPIRED, ""));
         lines.push("  earlier();".into());
@@ -494,7 +513,7 @@ fn gen12(ch: &mut Chooser, p: &P12) -> Case12 {
     let inner: Vec<String> = a.iter().map(|(w, x, _)| format!("{w}{x}")).collect();
     let t = blk.t.chars().count();
     let f = match &blk.inner[0] {
-        Inner::Line { w, .. } => w.chars().count(),
+        Inner::Line { w, .. } | Inner::Ws { w } => w.chars().count(),
         _ => 0,
     };
     let depth = depth_of(&blk);
